@@ -1,6 +1,3 @@
-SPECIFICATION Spec
 CONSTANTS TMin <- RealTMin
  TMax <- RealTMax
  BigBangT <- RealBigBang
-POSTCONDITION TraceConsumed
-CHECK_DEADLOCK FALSE
